@@ -433,6 +433,30 @@ class NpShim(object):
         return sym.arrfn_atom("sort", a, (), kinds)
 
     @staticmethod
+    def histogram(a, bins=10, *args, **k):
+        """np.histogram(values, edges)[0][k] = number of values v with edges[k] <= v < edges[k+1] (the last bin also holds
+        v = edges[-1]); values outside all bins and NaN are counted nowhere (assumed contract, explicit ascending edges only).
+        The counts come back as a NumPy object array of count atoms, so the arithmetic that follows is NumPy's own."""
+        if not is_sym(a):
+            return _np.histogram(a, bins, *args, **k)
+        if args or k or not isinstance(bins, _np.ndarray) or bins.ndim != 1 or len(bins) < 2 or not _np.all(_np.diff(bins) > 0):
+            raise Unsupported("np.histogram of a proxy needs explicit, concrete, ascending bin edges")
+        if a.ndim != 1 and not a.flat:
+            raise Unsupported("np.histogram of a multi-dimensional proxy")
+        use("np.histogram")
+        edges = [float(e) for e in bins]
+        B = len(edges) - 1
+        g, sel = a._snapshot(), a.sel
+        counts = _np.empty(B, dtype=object)
+        for kk in range(B):
+            def cond(idx, lo=edges[kk], hi=edges[kk + 1], last=(kk == B - 1)):
+                e = sym._elem_num(g(idx))
+                inside = sym.And((e >= lo).z, (e <= hi).z if last else (e < hi).z)
+                return sym.And(sel(idx) if sel else True, inside)
+            counts[kk] = sym.count_atom(a.axes, cond)
+        return counts, bins
+
+    @staticmethod
     def unique(a, *args, **k):
         if not is_sym(a):
             return _np.unique(a, *args, **k)
